@@ -306,6 +306,14 @@ def edge_configs(tier_):
         for m in corpus.MUTS[:5]:
             extra.append({"cfg": corpus.cfg(P, 0, 0, muts=[m], rate=1.0, ext=True, buf=True), "depth": 0, "seeds": many,
                           "full_bytes": True, "tag": "P%d values %s" % (P, m)})
+    # byte-value sweep: fuzzer inputs whose 256 bytes are all b, for every b - each byte-valued draw of a
+    # text emitter and of the character / string-length mutators takes every value once
+    consts = [2 ** 64 - 1 - 2 - 1 - b for b in range(256)]
+    TEXT = [0x53, 0x56, 0x8c, 0x58, 0x8d, 0x54, 0x55, 0x43, 0x42, 0x8e, 0x96, 0x46, 0x47, 0x50]
+    for P in ([0, 5] if tier_ == "quick" else range(6)):
+        for m in ("character", "stringlen", "boundary"):
+            extra.append({"cfg": corpus.cfg(P, 0, 0, muts=[m], rate=1.0), "depth": 0, "seeds": consts, "full_bytes": True, "only_ops": TEXT,
+                          "tag": "P%d byte sweep %s" % (P, m)})
     if tier_ == "quick":
         return extra + [ec(5, 3, True, True), ec(5, 2), ec(4, 2, True, False), ec(3, 2), ec(2, 2, True, False), ec(1, 3), ec(0, 3),
                 ec(5, 2, unsafe=True, tag="P5 unsafe d2")]
